@@ -15,6 +15,9 @@ from ..terms import C
 from . import common as cm
 
 
+ALSO_PORTABLE = True
+
+
 def run(ctx, chk):
     prog = ctx.prog()
     chk.configs.append("native -O0+mem2reg")
